@@ -257,3 +257,16 @@ class Check:
                 print("UNDECIDED", o.name, o.backend)
             return 2
         return 0
+
+
+def guarded(chk, label, fn, *args, **kw):
+    """run one part of a check; a crash of that part is a generator error (exit 3 unless another part found a violation) and
+    must not discard what the other parts established"""
+    import traceback
+    try:
+        return fn(*args, **kw)
+    except BaseException as e:     # noqa
+        if isinstance(e, (KeyboardInterrupt, SystemExit)):
+            raise
+        chk.error("{} crashed: {}: {} | {}".format(label, type(e).__name__, str(e)[:300], traceback.format_exc()[-400:].replace("\n", " / ")))
+        return None
